@@ -25,6 +25,7 @@ import (
 	"sync/atomic"
 	"syscall"
 	"testing"
+	"testing/synctest"
 	"time"
 
 	"github.com/AdguardTeam/AdGuardHome/internal/vutil"
@@ -45,7 +46,10 @@ type c09Ctx struct {
 // logger is part of Config, so no source is touched): when armed, the first
 // record with the given message signals `reached` and waits for `release`.
 type c09Hook struct {
-	armed   atomic.Bool
+	// loopDone is set when periodicFlush logs that it has finished
+	watchLoop atomic.Bool
+	loopDone  atomic.Bool
+	armed     atomic.Bool
 	msg     atomic.Value
 	reached chan struct{}
 	release chan struct{}
@@ -57,9 +61,14 @@ func newC09Hook() *c09Hook {
 
 type c09Handler struct{ h *c09Hook }
 
-func (x c09Handler) Enabled(context.Context, slog.Level) bool { return x.h.armed.Load() }
+func (x c09Handler) Enabled(context.Context, slog.Level) bool {
+	return x.h.armed.Load() || x.h.watchLoop.Load()
+}
 
 func (x c09Handler) Handle(_ context.Context, r slog.Record) error {
+	if r.Message == "periodic flushing finished" {
+		x.h.loopDone.Store(true)
+	}
 	if want, _ := x.h.msg.Load().(string); r.Message == want && x.h.armed.CompareAndSwap(true, false) {
 		x.h.reached <- struct{}{}
 		<-x.h.release
@@ -1074,4 +1083,121 @@ func c09Top(f []string) []string {
 		vutil.Itoa(len(udb.Clients)), u64(sc), u64(minC),
 		vutil.Itoa(len(udb.Domains)), u64(sd), vutil.Itoa(len(udb.BlockedDomains)), u64(sb),
 		u64(c09SumMap(u2.clients))}
+}
+
+// ---- the real flush loop under virtual time ----
+//
+// TestVerifC09Loop runs inside a testing/synctest bubble: time.Sleep of the
+// real periodicFlush goroutine (started by the real Start) and of the harness
+// is virtual, the bubble's clock starts at 2000-01-01T00:00:00Z.  The UnitID
+// generator shows the hour of the virtual wall clock plus a skew that C09.step
+// advances by hand (a stepped clock, a resume from suspend).
+
+var c09LoopSkew atomic.Uint32
+
+func c09LoopHour() uint32 { return uint32(time.Now().Unix()/3600) + c09LoopSkew.Load() }
+
+// c09LoopDrop stops the loop goroutine (periodicFlush ends only when it finds
+// s.curr == nil) and removes the context.
+func c09LoopDrop() {
+	c := c09
+	if c == nil {
+		return
+	}
+	c09 = nil
+	if c.s != nil {
+		_ = c.s.Close()
+		c.s.currMu.Lock()
+		c.s.curr = nil
+		c.s.currMu.Unlock()
+		// periodicFlush wakes up within its polling period (a changed tree may
+		// sleep much longer), finds no unit and returns
+		c.hook.watchLoop.Store(true)
+		for i := 0; i < 400 && !c.hook.loopDone.Load(); i++ {
+			time.Sleep(2 * time.Second)
+			synctest.Wait()
+			if i > 5 {
+				time.Sleep(time.Hour)
+				synctest.Wait()
+			}
+		}
+	}
+	_ = os.RemoveAll(c.dir)
+}
+
+func c09LoopRun(f []string) []string {
+	switch f[0] {
+	case "C09.loopstart":
+		c09LoopDrop()
+		start := time.Unix(int64(c09U32(f[1]))*3600+c09I64(f[2]), 0)
+		if d := time.Until(start); d > 0 {
+			time.Sleep(d)
+		} else if d < 0 {
+			panic("C09.loopstart: start hour is in the virtual past")
+		}
+		c09LoopSkew.Store(0)
+		c := &c09Ctx{dir: c09TempDir()}
+		conf := c.conf(c09I64(f[3]), true)
+		conf.UnitID = c09LoopHour
+		s, err := New(conf)
+		if err != nil {
+			_ = os.RemoveAll(c.dir)
+			panic("New: " + err.Error())
+		}
+		c.s = s
+		c09 = c
+		s.Start()
+		synctest.Wait()
+
+		return c.observe(true, 0)
+	case "C09.step":
+		c09LoopSkew.Add(uint32(vutil.Atoi(f[1])))
+
+		return c09.observe(false, 0)
+	case "C09.wait":
+		time.Sleep(time.Duration(c09I64(f[1])) * time.Millisecond)
+		synctest.Wait()
+
+		return c09.observe(true, 0)
+	case "C09.upd", "C09.read":
+		return c09Run(f)
+	default:
+		panic("unknown loop op " + f[0])
+	}
+}
+
+func c09GenLoop(r *rand.Rand, emit vutil.Emit) {
+	n := vutil.N(150)
+	// the bubble starts at hour 262968 (2000-01-01T00:00Z); blocks are 40 h apart
+	hour := 262968 + 5
+	for b := 0; b < n; b++ {
+		hour += 40
+		off := vutil.Pick(r, []int{0, 1, 600, 1800, 3000, 3597, 3599})
+		limH := vutil.Pick(r, []int64{24, 24, 24, 2, 48, 3})
+		emit("C09.loopstart", vutil.Itoa(hour), vutil.Itoa(off), strconv.FormatInt(limH*3600000, 10))
+		var elapsed int64
+		steps := 6 + r.IntN(14)
+		for i := 0; i < steps && elapsed < 30*3600000; i++ {
+			switch k := r.IntN(100); {
+			case k < 35:
+				emit("C09.upd", vutil.Itoa(vutil.Pick(r, []int{1, 1, 2, 2, 3, 4, 5})), vutil.Itoa(1+r.IntN(4)), "0", "0")
+			case k < 45:
+				emit("C09.read")
+			case k < 60:
+				emit("C09.step", vutil.Itoa(vutil.Pick(r, []int{1, 1, 1, 1, 2, 3, 25})))
+			default:
+				ms := vutil.Pick(r, []int64{1, 500, 999, 1000, 1001, 1500, 2500, 2500, 10000, 60000, 1800000, 3600000,
+					3599000, 3601000, 7200000})
+				elapsed += ms
+				emit("C09.wait", strconv.FormatInt(ms, 10))
+			}
+		}
+	}
+}
+
+func TestVerifC09Loop(t *testing.T) {
+	synctest.Test(t, func(t *testing.T) {
+		defer c09LoopDrop()
+		vutil.Main(t, c09GenLoop, c09LoopRun)
+	})
 }
